@@ -7,7 +7,6 @@ import Xo.Lemmas.Mem
 import Xo.Lay
 import Xo.Lay2
 import Xo.Lay3
-import Xo.Topo
 import Xo.CGen
 import Xo.Spec
 import Xo.LayM
@@ -19,3 +18,7 @@ import Xo.Props.C04
 import Xo.Props.C12
 import Xo.Drv.Util
 import Xo.Drv.Alloc
+import Xo.Model.Topo
+import Xo.Lemmas.Topo
+import Xo.Props.C14
+import Xo.Drv.Topo
